@@ -28,8 +28,11 @@ def emit(sc):
         if f.get("starve"):
             parts.append("starve=%d:%d:%d" % tuple(f["starve"]))
         lines.append("faults " + " ".join(parts))
-    if sc.get("decisions") is not None:
-        lines.append("decisions " + ",".join(str(d) for d in sc["decisions"]))
+    if sc.get("tape") is not None:
+        # replay of an explicit (minimised) schedule and fault trace: one small integer per decision, 0 = nothing unusual
+        lines.append("tape " + ",".join(str(d) for d in sc["tape"]))
+    if sc.get("emit_tape"):
+        lines.append("emit_tape")
     if sc.get("maxsteps"):
         lines.append("maxsteps %d" % sc["maxsteps"])
     return "\n".join(lines) + "\n"
@@ -476,3 +479,55 @@ def normalise(sc):
     if q.get("faults", {}).get("starve"):
         q["faults"]["starve"] = tuple(q["faults"]["starve"])
     return q
+
+
+def recorded_tape(events):
+    for e in events:
+        if e["k"] == "tape":
+            return [int(x) for x in e["v"].split(",")] if e["v"] else []
+    return None
+
+
+def shrink_tape(run_same, tape, max_runs=400):
+    """Minimise a schedule tape: shortest reproducing prefix (decisions beyond the end are the default: keep running the
+    current thread, no fault), then zero blocks of decisions (delta debugging, halving block sizes) while run_same(tape)
+    still reports the same violation. Returns (tape, runs used)."""
+    runs = 0
+    best = list(tape)
+    while best and best[-1] == 0:
+        best.pop()
+    # 1. prefix by bisection (monotone enough in practice; verified by run_same at every accepted step)
+    lo, hi = 0, len(best)
+    while lo < hi and runs < max_runs:
+        mid = (lo + hi) // 2
+        runs += 1
+        if run_same(best[:mid]):
+            hi = mid
+        else:
+            lo = mid + 1
+    if hi < len(best):
+        runs += 1
+        if run_same(best[:hi]):
+            best = best[:hi]
+    while best and best[-1] == 0:
+        best.pop()
+    # 2. zero blocks
+    size = max(1, len(best) // 2)
+    while size >= 1 and runs < max_runs:
+        i = 0
+        progress = False
+        while i < len(best) and runs < max_runs:
+            blk = best[i:i + size]
+            if any(blk):
+                cand = best[:i] + [0] * len(blk) + best[i + size:]
+                runs += 1
+                if run_same(cand):
+                    best = cand
+                    progress = True
+            i += size
+        if size == 1 and not progress:
+            break
+        size = size // 2 if size > 1 else (1 if progress else 0)
+    while best and best[-1] == 0:
+        best.pop()
+    return best, runs
